@@ -116,14 +116,27 @@ Theorem C10_pipe_terminates : forall tr p p',
 Proof. exact (pipe_terminates true). Qed.
 Print Assumptions C10_pipe_terminates.
 
-(* ... and it cannot stop early: while a stage is left, some stage can return (closing its
-   output); so the maximal schedules end with every goroutine gone and the consumer's channel
-   closed *)
+(* ... and it cannot stop early: while a stage is left, the first stage that has not ended can
+   move - it returns (closing its output) or, for changesAfter holding a change (it has no ctx
+   case), hands the change to mergeCollectionExcess behind it, which always receives.  So the
+   maximal schedules end with every goroutine gone and the consumer's channel closed.
+   [after_ok]: every changesAfter stage is directly followed by an always-receiving stage; it
+   holds for the chains the code builds and C10_pipe_shape_invariant shows every step keeps it. *)
 Theorem C10_pipe_progress : forall p,
-  p_src_closed p = true -> p_cancel p = true -> all_stages_done p = false ->
-  exists i p', pstep p (PExit i) = Some p'.
+  p_src_closed p = true -> p_cancel p = true -> after_ok (p_stages p) = true -> all_stages_done p = false ->
+  exists i p', pstep p (PExit i) = Some p' \/ pstep p (PXfer i) = Some p'.
 Proof. exact (pipe_progress true). Qed.
 Print Assumptions C10_pipe_progress.
+
+Theorem C10_pipe_shape_invariant : forall p a p',
+  after_ok (p_stages p) = true -> pstep p a = Some p' -> after_ok (p_stages p') = true.
+Proof. exact (after_ok_step true). Qed.
+Print Assumptions C10_pipe_shape_invariant.
+
+Example C10_nonvacuous_chains :
+  after_ok [StAfter None; StMerge []; StFwd [mkM 1 1 5] None; StPullID 1 None] = true /\
+  after_ok [StDrop None; StFwd [] None] = true /\ after_ok [StFwd [] None] = true.
+Proof. repeat split; reflexivity. Qed.
 
 Theorem C10_pipe_close_needs_cancel : forall tr stages p,
   prun (init_pipe stages) tr = Some p -> p_src_closed p = true -> p_cancel p = true.
